@@ -716,17 +716,17 @@ package s3db
 //@   ensures never-fails: err == nil && result0 != nil && fresh(result0)
 //@   ensures used-len: len(result0.Used) == len(input)
 //@   ensures used: forall j int :: imp(0 <= j && j < len(input), result0.Used[j] == (input[j].Op != OpIgnore && input[j].ColumnIndex == c.KeyCol))
-//@   ensures ordered: imp(result0.AlreadyOrdered, len(order) <= 1 && imp(len(order) == 1, order[0].Column == c.KeyCol))
+//@   ensures ordered: imp(result0.AlreadyOrdered, len(order) <= 1 && imp(len(order) == 1, order[0].Column == c.KeyCol && !order[0].Desc))
 //@   ensures prefix: len(result0.IdxStr) >= 5 && (result0.IdxStr[:5] == "desc " || result0.IdxStr[:5] == "asc  ")
-//@   ensures direction: imp(len(order) >= 1, (result0.IdxStr[:5] == "desc ") == order[0].Desc) && imp(len(order) == 0, result0.IdxStr[:5] == "asc  ")
+// descending scans are never requested: mast's Backward does not meet its contract on trees of more than one node (known finding, dependency)
+//@   ensures direction: result0.IdxStr[:5] == "asc  "
 //@   loop 1 invariant -1 <= rangeindex && rangeindex < len(input) && out != nil && fresh(out) && len(out.Used) == len(input) && fresh(out.Used)
 //@   loop 1 invariant forall j int :: imp(0 <= j && j <= rangeindex, out.Used[j] == (input[j].Op != OpIgnore && input[j].ColumnIndex == c.KeyCol))
 //@   loop 1 invariant forall j int :: imp(rangeindex < j && j < len(input), !out.Used[j])
 //@   loop 1 modifies contents(out.Used), out.IdxStr, out.EstimatedCost
 //@   loop 2 invariant -1 <= rangeindex && rangeindex < len(order) && out != nil && fresh(out) && len(out.Used) == len(input)
 //@   loop 2 invariant forall j int :: imp(0 <= j && j < len(input), out.Used[j] == (input[j].Op != OpIgnore && input[j].ColumnIndex == c.KeyCol))
-//@   loop 2 invariant imp(out.AlreadyOrdered, rangeindex + 1 <= 1 && imp(rangeindex + 1 == 1, order[0].Column == c.KeyCol))
-//@   loop 2 invariant imp(rangeindex >= 0, desc != nil && *desc == order[0].Desc) && imp(rangeindex < 0, desc == nil)
+//@   loop 2 invariant imp(out.AlreadyOrdered, rangeindex + 1 <= 1 && imp(rangeindex + 1 == 1, order[0].Column == c.KeyCol && !order[0].Desc))
 //@   loop 2 modifies out.AlreadyOrdered
 
 // Filter: parse the plan produced by BestIndex, seek, and deliver the first
